@@ -79,6 +79,15 @@ CHECKS = {
         "feasibility, trace monotone, heuristic problem never infeasible.",
    note="trusted: pv/canon.py, thresholds DESIGN 2.8; MOSEK via stand-in",
    tech="runtime monitor of inner solver calls + certificate/primal oracles + differential plain solve"),
+ "C04": dict(cat="exploration", ref="DESIGN 3/C04, Appendix A",
+   text="One multiset of samples per scenario is recorded under several declaration orders (stationary first/last/middle, repeated "
+        "subgradients, fixed points, prox and composite-function arrivals, intermediate solves) for all 24 classes; generated "
+        "constraints/LMIs become canonical functionals with role labels; oracle A: equal across orders; oracle B: equal to an "
+        "independent reference implementation of the documented conditions, unmatched items decided by an SDP implication test "
+        "whose optimum is a concrete (Gram, F) witness.",
+   note="trusted: pv/ref/conditions.py (transcription of the documented conditions), pv/ref/sym.py, Clarabel 'optimal' for the "
+        "implication SDPs; 'attained by a real member' relies on the published interpolation theorems",
+   tech="reference-model monitor over constraint lists observed after set_class_constraints, under permuted histories"),
 }
 NOT_YET = {}
 
